@@ -24,6 +24,9 @@ pub enum Extra {
     /// trait-level generic with Debug bound (instantiated with i16)
     GenericDebug,
     SliceOfNoDebug,
+    /// `&mut Lt<'_>`: a mutable reference to a type with a lifetime parameter (cannot be part of the
+    /// matcher's inputs; documented placeholder rendering)
+    MutWithLifetime,
 }
 
 impl Extra {
@@ -37,6 +40,7 @@ impl Extra {
             Extra::GenericNoDebug => "G",
             Extra::GenericDebug => "H",
             Extra::SliceOfNoDebug => "&[ND]",
+            Extra::MutWithLifetime => "&mut Lt<'_>",
         }
     }
     fn arg(self, k: usize) -> (String, String, String) {
@@ -65,6 +69,7 @@ impl Extra {
                 format!("-{}", 70 + k),
             ),
             Extra::SliceOfNoDebug => (String::new(), format!("&[ND({k}), ND(1)][..]"), "?".into()),
+            Extra::MutWithLifetime => (format!("let q{k}: u32 = {}; let mut lt{k} = Lt(&q{k});\n", 40 + k), format!("&mut lt{k}"), "Impossible".into()),
         }
     }
 }
@@ -79,6 +84,8 @@ pub struct MsgCase {
 
 pub const PRELUDE_EXTRA: &str = r#"
 pub struct ND(pub usize);
+#[derive(Debug)]
+pub struct Lt<'a>(pub &'a u32);
 pub fn msg_of(r: std::thread::Result<()>) -> String {
     match r {
         Ok(()) => "NOPANIC".to_string(),
@@ -689,6 +696,9 @@ pub fn judge(c: &MsgCase, line: &str) -> Result<CaseInfo, String> {
     }) {
         info.classes.push("non-Debug-argument(?)");
     }
+    if c.extras.contains(&Extra::MutWithLifetime) {
+        info.classes.push("&mut-T<'_>-argument(Impossible)");
+    }
     Ok(info)
 }
 
@@ -702,6 +712,7 @@ pub fn case_strategy() -> impl Strategy<Value = MsgCase> {
         Just(Extra::GenericNoDebug),
         Just(Extra::GenericDebug),
         Just(Extra::SliceOfNoDebug),
+        Just(Extra::MutWithLifetime),
     ];
     (
         crate::c06::case_strategy(),
